@@ -3,7 +3,7 @@
 property in the id), undoes the change, and records what was reported in /verif/seeded/<id>/result.json"""
 import sys, os, json, subprocess, re, time
 sid = sys.argv[1]
-props = sys.argv[2:] or [sid.split('_')[0]]
+props = sys.argv[2:] or [sid.split('_')[0][:3]]
 d = '/verif/seeded/' + sid
 def sh(c): return subprocess.run(c, shell=True, stdout=subprocess.PIPE, stderr=subprocess.STDOUT, text=True)
 if sh('git -C /repo diff --quiet').returncode != 0: print('/repo dirty'); sys.exit(2)
